@@ -59,6 +59,8 @@ pub(crate) fn solve_expression(
     identifiers: &HashMap<String, Expression>,
     document: &dyn Document,
 ) -> SolverResult {
+    #[cfg(feature = "verif")]
+    crate::verif::engine_seam();
     match *expression {
         Expression::BooleanGroup(BoolSym::And, ref group) => {
             for expression in group {
